@@ -125,7 +125,7 @@ Proof. exact commutation_rules_fixed_fredkin. Qed.
         library's commutation_rules (fixes/C05-commutation-rules.diff and C05-role-order.diff applied): so sched_sem is a statement about actual
         unitaries acting on every register.  An instruction that is not well formed for its name (unknown name, wrong
         number of controls / targets, repeated qubit, a gate with >= 2 parameters carrying another number of arguments)
-        has no unitary and acts as the identity.  Proofs/SchedReal.v: 70 local symbolic commutation identities with
+        has no unitary and acts as the identity.  Proofs/SchedReal.v: 71 local symbolic commutation identities with
         independent parameter values for the two gates (all_ok, vm_compute), lifted by Found/Shift.v. ---- *)
 From QV Require Import Found.Circ Found.Shift Gen.Gates Proofs.C09 Proofs.SchedReal.
 
@@ -142,6 +142,7 @@ Proof. exact SchedReal.wf_iff. Qed.
 
 (* gate_mexp n = the matrix of Gate(n) (dispatch), or of the class registered for n (H, iSWAP, SWAPALPHA, MS, CX, RZX) *)
 Theorem gate_mexp_def : forall n, gate_mexp n =
+  if String.eqb n "GLOBALPHASE" then Some (MLit [[globalphase_ex]]) else   (* the scalar e^{i arg} on no qubit *)
   match assoc n dispatch with
   | Some m => Some m
   | None => match assoc n class_map with Some c => assoc c class_mat | None => None end
@@ -221,3 +222,9 @@ Example toffoli_targets_only :
   commutation_rules_orig (mkInstr "TOFFOLI" [0; 1; 2] [] [] 1%Q) (mkInstr "TOFFOLI" [0; 1; 2] [] [] 1%Q) = true /\
   comm_check 3 fn_toffoli [0; 1; 2] fn_toffoli [1; 2; 0] = false.
 Proof. repeat split; vm_compute; reflexivity. Qed.
+
+(* GLOBALPHASE is the scalar gate it is: a well-formed instruction on no qubit whose 1 x 1 matrix is e^{i arg} *)
+Example globalphase_wf :
+  wf_instr (mkInstr "GLOBALPHASE" [] [] [(1 # 2)%Q] 1%Q) = Some (MLit [[globalphase_ex]]) /\
+  mtab (MLit [[globalphase_ex]]) = Some [[ [T 1 0 0 [4%Z; 0%Z]] ]].   (* z_0^4 = (e^{i arg/4})^4 *)
+Proof. split; vm_compute; reflexivity. Qed.
